@@ -421,6 +421,24 @@ def find_const(src, name, origin):
     return rust_int(m.group(1))
 
 
+def duplicate_depth_limit(ir_src):
+    """`if depth > N { return None; }` at the head of Node::try_duplicate."""
+    body = parse_fn_body(ir_src, "try_duplicate")
+    m = re.match(r"\s*if\s+depth\s*>\s*([0-9_]+)\s*\{\s*return\s+None\s*;\s*\}", body)
+    if not m:
+        raise TranslateError("ir.rs: try_duplicate does not start with `if depth > N { return None; }`")
+    return rust_int(m.group(1))
+
+
+def surrogate_pair_mask(indexing_src):
+    """`(((high & M) as u32) << 10 | (low & M) as u32) + 0x1_0000` in code_point_from_surrogates."""
+    body = parse_fn_body(indexing_src, "code_point_from_surrogates")
+    m = re.match(r"\s*\(\(\(high\s*&\s*(\w+)\)\s*as\s+u32\)\s*<<\s*10\s*\|\s*\(low\s*&\s*(\w+)\)\s*as\s+u32\)\s*\+\s*0x1_0000\s*$", body)
+    if not m or m.group(1) != m.group(2):
+        raise TranslateError("indexing.rs: code_point_from_surrogates is not `(((high & M) as u32) << 10 | (low & M) as u32) + 0x1_0000`")
+    return rust_int(m.group(1))
+
+
 def parse_escape_chars(api_src):
     body = parse_fn_body(api_src, "escape")
     m = re.search(r"match\s+c\s*\{(.*?)=>", body, re.S)
@@ -586,6 +604,9 @@ def main():
     types = strip_comments(open(os.path.join(src_dir, "types.rs")).read())
     insn = strip_comments(open(os.path.join(src_dir, "insn.rs")).read())
     opt = strip_comments(open(os.path.join(src_dir, "optimizer.rs")).read())
+    indexing = strip_comments(open(os.path.join(src_dir, "indexing.rs")).read())
+    ir_src = strip_comments(open(os.path.join(src_dir, "ir.rs")).read())
+    util_src = strip_comments(open(os.path.join(src_dir, "util.rs")).read())
 
     tables = parse_interval_tables(ut, "unicodetables.rs")
     cctables = parse_interval_tables(cc, "charclasses.rs")
@@ -705,10 +726,17 @@ def main():
         "MAX_CHAR_SET_LENGTH": find_const(insn, "MAX_CHAR_SET_LENGTH", "insn.rs"),
         "LOOP_UNROLL_THRESHOLD": find_const(opt, "LOOP_UNROLL_THRESHOLD", "optimizer.rs"),
         "UNROLL_BODY_BUDGET": find_const(opt, "UNROLL_BODY_BUDGET", "optimizer.rs"),
+        "SURROGATE_HIGH_START": find_const(indexing, "SURROGATE_HIGH_START", "indexing.rs"),
+        "SURROGATE_HIGH_END": find_const(indexing, "SURROGATE_HIGH_END", "indexing.rs"),
+        "SURROGATE_LOW_START": find_const(indexing, "SURROGATE_LOW_START", "indexing.rs"),
+        "SURROGATE_LOW_END": find_const(indexing, "SURROGATE_LOW_END", "indexing.rs"),
+        "UTF8_CONT_SIGBITS": find_const(util_src, "UTF8_CONT_SIGBITS", "util.rs"),
+        "DUPLICATE_DEPTH_LIMIT": duplicate_depth_limit(ir_src),
+        "SURROGATE_PAIR_MASK": surrogate_pair_mask(indexing),
     }
     esc = parse_escape_chars(api)
     letters = parse_flag_letters(api)
-    L = [HEADER % "src/types.rs, src/insn.rs, src/optimizer.rs, src/api.rs", "namespace Regress.Gen", ""]
+    L = [HEADER % "src/types.rs, src/insn.rs, src/optimizer.rs, src/api.rs, src/indexing.rs, src/ir.rs, src/util.rs", "namespace Regress.Gen", ""]
     for k, v in consts.items():
         L.append("def %s : Nat := %d" % (k, v))
     L.append("def escapeChars : List Nat := [%s]" % ", ".join(hexnat(c) for c in esc))
